@@ -14,4 +14,5 @@ import Cppcms.C04.LemHtml
 import Cppcms.C04.LemEnc
 import Cppcms.C04.LemSync
 import Cppcms.C04.LemUri
+import Cppcms.C04.LemUriSafe
 /-! C04 helper lemmas (aggregator).  The parts live in `Lem*.lean`; none imports Mathlib. -/
